@@ -50,12 +50,35 @@ func encodeTrieCase(c trieCase) Val {
 // trieReports runs ForEach with a callback that returns false at its p-th call
 // (p = 0: never) and returns copies of what was reported, in call order.
 func trieReports(t *trie.Trie, p int) [][]byte {
+	triePoison(t)
 	var r [][]byte
 	t.ForEach(func(b []byte) bool {
 		r = append(r, slices.Clone(b))
 		return len(r) != p
 	})
 	return r
+}
+
+// triePoison: a ForEach whose callback panics at its first call (the caller recovers),
+// and one that is stopped at once. Whatever ForEach keeps between calls must be in
+// order again for the next ForEach, on this trie or any other.
+func triePoison(t *trie.Trie) {
+	func() {
+		defer func() { recover() }()
+		t.ForEach(func([]byte) bool { panic("injected callback panic") })
+	}()
+	func() {
+		defer func() { recover() }()
+		n := 0
+		t.ForEach(func([]byte) bool {
+			n++
+			if n == 2 {
+				panic("injected callback panic")
+			}
+			return true
+		})
+	}()
+	t.ForEach(func([]byte) bool { return false })
 }
 
 func trieObs(t *trie.Trie, qs [][]byte, p int) Val {
